@@ -104,7 +104,10 @@ TEXTS = {
                 "returns Ok; monC06_split: monC06 and monC06t together accept exactly what the one-piece formulation "
                 "accepts.",
         "design_ref": "DESIGN.md §5 C06",
-        "note": "The send clause between failure and task end is false of unguarded runs and proved for guarded runs "
+        "note": "Containment across actors is exercised inside this check too: it runs the actor-tree family (C16@sys16, "
+                "handler panics injected into members of a tree; monC16 / monC16q on the system run: live siblings of a "
+                "failed child keep receiving the parent's broadcasts). "
+                "The send clause between failure and task end is false of unguarded runs and proved for guarded runs "
                 "(C06r_holds / C06g_holds), which are what the acceptor accepts; the chain also runs monC17 (join yields "
                 "None), monC10 (timers stop firing) and monC03; multi-actor clauses via C08 / C16 and per-actor acceptance.",
         "technique": "Lean 4 proof (failed-phase / latch / op-state invariants) + checked trace correspondence with fault injection",
@@ -291,7 +294,10 @@ TEXTS = {
                 "earlier incarnations are dead, dead timers never come back). The refresh facts are re-extracted "
                 "from restart_strategy.rs on every run; the negation is proved for the no-abort wiring by a witness.",
         "design_ref": "DESIGN.md §5 C07, §8 D3",
-        "note": "The order clause (a message submitted after k accepted restart requests is handled by incarnation "
+        "note": "Identity across restarts as others see it: the check also runs the broker family (C09@brk09) with "
+                "restartable subscribers (recreate-from-default among them) that subscribe again in started - the broker "
+                "keys its table by the context id, so a restart that changed the identity shows as a duplicate delivery. "
+                "The order clause (a message submitted after k accepted restart requests is handled by incarnation "
                 "k+1; by incarnation 1 on a non-restartable spawn, which also keeps its repeating timers) is theorem "
                 "C07o_holds (monC07o; WellWired05, fresh message numbers and operation ids). 'started error during "
                 "restart terminates as failed' is covered by C03 / C06. Trusted: Lean kernel + axioms; timer model "
